@@ -193,13 +193,13 @@ func runCFG(p *Prog) (o cfgOutcome) {
 // a function without virtual registers and without register self-moves the nodes at the time of the CFG
 // pass are the final nodes, so the live sets must satisfy LiveOut(i) = union LiveIn(succ(i)) for the
 // successors the property demands (Model/CfgLive.v).
-func runCompileLive(p *Prog) (final []ir.Node, lins, louts [][][2]uint64, ok bool) {
+func runCompileLive(p *Prog) (final []ir.Node, lins, louts [][][2]uint64, ok bool, code int) {
 	for _, nd := range p.Nodes {
 		if i, isI := nd.(*ir.Instruction); isI {
 			if len(i.Operands) == 2 && strings.HasPrefix(i.Opcode, "MOV") {
 				if a, okA := i.Operands[0].(reg.Register); okA {
 					if b, okB := i.Operands[1].(reg.Register); okB && a.ID() == b.ID() {
-						return nil, nil, nil, false
+						return nil, nil, nil, false, 0
 					}
 				}
 			}
@@ -223,10 +223,11 @@ func runCompileLive(p *Prog) (final []ir.Node, lins, louts [][][2]uint64, ok boo
 		}()
 		if err := pass.Compile.Execute(f); err != nil {
 			failed = true
+			code = errCode(err)
 		}
 	}()
 	if failed {
-		return nil, nil, nil, false
+		return nil, nil, nil, false, code
 	}
 	// an instruction that disappeared and is not an unconditional branch was a self-move created by the
 	// allocation and deleted after the CFG pass: the final nodes are then not the nodes the graph was built on
@@ -238,7 +239,7 @@ func runCompileLive(p *Prog) (final []ir.Node, lins, louts [][][2]uint64, ok boo
 	}
 	for _, i := range before {
 		if !kept[i] && !i.IsUnconditionalBranch() {
-			return nil, nil, nil, false
+			return nil, nil, nil, false, 0
 		}
 	}
 	for _, nd := range fn.Nodes {
@@ -247,7 +248,7 @@ func runCompileLive(p *Prog) (final []ir.Node, lins, louts [][][2]uint64, ok boo
 			louts = append(louts, maskList(i.LiveOut))
 		}
 	}
-	return snapshotNodes(fn), lins, louts, true
+	return snapshotNodes(fn), lins, louts, true, 0
 }
 
 func (o cfgOutcome) Coq() string {
@@ -367,6 +368,12 @@ func cfgCorpus() []*Prog {
 			add(ir.Label("c"))
 			add(ret())
 		}),
+		mk("two jumps to the following label in one function", func(add func(ir.Node)) {
+			add(nop()); add(br("JMP", "a", false)); add(ir.Label("a")); add(nop()); add(br("JNE", "done", true)); add(nop()); add(br("JMP", "done", false)); add(ir.Label("done")); add(ret())
+		}),
+		mk("two unreferenced labels in one function", func(add func(ir.Node)) {
+			add(ir.Label("u1")); add(nop()); add(ir.Label("loop")); add(nop()); add(ir.Label("u2")); add(nop()); add(br("JNE", "loop", true)); add(ret())
+		}),
 		mk("empty function", func(add func(ir.Node)) {}),
 		mk("only a label", func(add func(ir.Node)) { add(ir.Label("a")) }),
 		mk("only comments", func(add func(ir.Node)) { add(ir.NewComment("a")) }),
@@ -439,15 +446,19 @@ func c09(c *Ctx) {
 	}
 	// the same property on what the real pass.Compile leaves behind (the passes in ITS order)
 	{
-		var rows []string
+		var rows, errRows []string
 		base := 1000000
 		ne := 0
 		for _, p := range progs {
 			if p.Tags["opcode-sweep"] {
 				continue
 			}
-			final, lins, louts, ok := runCompileLive(p)
+			final, lins, louts, ok, code := runCompileLive(p)
 			if !ok {
+				if code >= 1 && code <= 4 { // refused with a label/branch error: the function as written must deserve it
+					errRows = append(errRows, fmt.Sprintf("(%s, %d)", cNodes(p.Nodes), code))
+					o.Plan.Cases = append(o.Plan.Cases, Case{Index: 2000000 + len(errRows) - 1, Key: "cfg-e2e-error:" + p.Desc, Desc: fmt.Sprintf("pass.Compile refuses with error %d: %s", code, p.Text()), Input: map[string]any{"nodes": p.Text()}, Nontrivial: true})
+				}
 				continue
 			}
 			ll := func(l [][][2]uint64) string {
@@ -466,10 +477,14 @@ func c09(c *Ctx) {
 		b.WriteString("From Avo Require Import Model.CfgLive.\n")
 		fmt.Fprintf(&b, "Definition cases : list cfg_live_case := %s.\n", cListNL(rows))
 		fmt.Fprintf(&b, "Definition R_e2e_violation := Eval vm_compute in List.map (N.add %d) (indices_where_ (fun c => negb (e2e_cfg_live_ok c)) cases).\nPrint R_e2e_violation.\n", base)
+		fmt.Fprintf(&b, "Definition errcases : list (list node * N) := %s.\n", cListNL(errRows))
+		b.WriteString("Definition R_e2e_error_violation := Eval vm_compute in List.map (N.add 2000000) (indices_where_ (fun c => negb (cfg_should_fail (fst c))) errcases).\nPrint R_e2e_error_violation.\n")
 		o.WriteFile("E2E.v", b.String())
 		files = append(files, "E2E.v")
 		o.ExpectEmpty("E2E.v", "R_e2e_violation", "violation", "after the real pass.Compile the live sets do not satisfy LiveOut(i) = union of LiveIn over the successors the property demands: the graph the pipeline used was not the graph of the function (stale label targets, edges to deleted instructions)")
+		o.ExpectEmpty("E2E.v", "R_e2e_error_violation", "violation", "the real pass.Compile refuses, with a label or branch-target error, a function that has none of the four faults the property names")
 		o.Plan.Stats["compiled_end_to_end"] = ne
+		o.Plan.Stats["refused_end_to_end_with_cfg_error"] = len(errRows)
 	}
 	multiFunctionFiles(o, progs, "cfg", 60)
 	o.Stage(files...)
